@@ -77,6 +77,16 @@ def make_linear_model(rng, n, cdim):
     return model
 
 
+def make_exploding_model(n):
+    """A (very poor) surrogate on which every controller diverges: the state
+    leaves the sane range within a few steps, the objective must report
+    1e200 - in model mode only."""
+    def model(state, t, control, out):
+        out[:] = 1e12
+    model.tag = f"explode{n}"
+    return model
+
+
 class Budget(Exception):
     """The right-hand-side budget of one history is exhausted."""
 
@@ -348,7 +358,7 @@ def run_history(ctx, rng, cls, inst, collecting, ops, pool, models, case):
 
 
 def gen_pool(rng, dim):
-    pool = []
+    pool = [rng.uniform(-0.3, 0.3, dim)]      # pool[0]: well-behaved
     for _ in range(int(rng.integers(4, 7))):
         k = int(rng.integers(5))
         if k == 0:
@@ -386,6 +396,12 @@ def gen_ops(rng, n_pool, n_models, length):
     i = int(rng.integers(n_pool))
     ops += [("evaluate", i), ("set_model", 0), ("evaluate", i),
             ("set_raw", None), ("evaluate", i), ("get_differentials", None)]
+    if n_models >= 3:
+        # ... and: a vector that fails on a poor surrogate (last model) is
+        # evaluated on the real system right afterwards
+        ops += [("set_model", n_models - 1), ("evaluate", 0),
+                ("set_raw", None), ("evaluate", 0),
+                ("get_differentials", None)]
     return ops
 
 
@@ -402,6 +418,8 @@ def random_history(ctx, rng):
     n = inst.system.state_dims
     models = [GuardedModel(make_linear_model(rng, n, inst.system.control_dims),
                            inst.system.equations) for _ in range(2)]
+    models.append(GuardedModel(make_exploding_model(n),
+                               inst.system.equations))
     length = int(rng.integers(10, 41)) if ctx.tier == "thorough" else int(
         rng.integers(8, 16))
     ops = gen_ops(rng, len(pool), len(models), length)
